@@ -334,26 +334,33 @@ inductive PassRes (K V : Type) where
   | done (h : HMap K V)
   | again (h : HMap K V)      -- `goto again` after hashGrow
 
-/-- one pass of mapassign from the label `again` -/
-def assignPass (o : Ops K) (h : HMap K V) (hash : UInt64) (k : K) (v : V) : Except Err (PassRes K V) := do
+/-- one pass of mapassign from the label `again`, after `growWork`: scan the chain, update or insert -/
+def assignCore (o : Ops K) (h : HMap K V) (hash : UInt64) (k : K) (v : V) : PassRes K V :=
   let bucket := bucketIdx hash h.B
-  let h ← if h.growing then growWork o h bucket else pure h
   let chain := h.buckets.getD bucket []
   let top := tophash hash
   match scanAssign o.eq top k chain 0 none with
   | .found i =>
     let upd := fun (c : Cell K V) => { c with key := if o.needKeyUpdate then k else c.key, val := v }
-    pure (.done { h with buckets := h.buckets.setIfInBounds bucket (chain.modify i upd) })
+    .done { h with buckets := h.buckets.setIfInBounds bucket (chain.modify i upd) }
   | .notFound ins =>
     if !h.growing && (overLoadFactor (h.count + 1) h.B || tooManyOverflowBuckets h.noverflow h.B) then
-      pure (.again (hashGrow h))
+      .again (hashGrow h)
     else
-      let (chain, i, h) :=
-        match ins with
-        | some i => (chain, i, h)
-        | none => (chain ++ freshBucket K V, chain.length, h.incrnoverflow)   -- h.newoverflow(t, b)
       let c' : Cell K V := { top := top, key := k, val := v }
-      pure (.done { h with buckets := h.buckets.setIfInBounds bucket (chain.set i c'), count := h.count + 1 })
+      match ins with
+      | some i =>
+        .done { h with buckets := h.buckets.setIfInBounds bucket (chain.set i c'), count := h.count + 1 }
+      | none =>
+        -- h.newoverflow(t, b)
+        let h := h.incrnoverflow
+        .done { h with buckets := h.buckets.setIfInBounds bucket ((chain ++ freshBucket K V).set chain.length c'),
+                       count := h.count + 1 }
+
+/-- one pass of mapassign from the label `again` -/
+def assignPass (o : Ops K) (h : HMap K V) (hash : UInt64) (k : K) (v : V) : Except Err (PassRes K V) := do
+  let h ← if h.growing then growWork o h (bucketIdx hash h.B) else pure h
+  pure (assignCore o h hash k v)
 
 /-- `*mapassign(t, h, key) = v` on a non-nil map -/
 def mapassign (o : Ops K) (h : HMap K V) (k : K) (v : V) : Except Err (HMap K V) := do
@@ -396,6 +403,19 @@ def deleteAt (c : Chain K V) (i : Nat) : Chain K V :=
   | some t => if t != emptyRest then c else backProp c i
   | none => backProp c i
 
+/-- mapdelete after `growWork`: search the chain, delete, reseed when the map became empty -/
+def deleteCore (o : Ops K) (h : HMap K V) (hash : UInt64) (k : K) : HMap K V :=
+  let bucket := bucketIdx hash h.B
+  let chain := h.buckets.getD bucket []
+  match scanDelete o.eq (tophash hash) k chain 0 with
+  | none => h
+  | some i =>
+    let h := { h with buckets := h.buckets.setIfInBounds bucket (deleteAt chain i), count := h.count - 1 }
+    if h.count == 0 then
+      let (s, h) := h.fastrand
+      { h with hash0 := s }
+    else h
+
 /-- `mapdelete(t, h, key)` on a non-nil map -/
 def mapdelete (o : Ops K) (h : HMap K V) (k : K) : Except Err (HMap K V) :=
   if h.count == 0 then
@@ -405,17 +425,8 @@ def mapdelete (o : Ops K) (h : HMap K V) (k : K) : Except Err (HMap K V) :=
     else pure h
   else do
     let (hash, h) ← hashKey o h.hash0 k h
-    let bucket := bucketIdx hash h.B
-    let h ← if h.growing then growWork o h bucket else pure h
-    let chain := h.buckets.getD bucket []
-    match scanDelete o.eq (tophash hash) k chain 0 with
-    | none => pure h
-    | some i =>
-      let h := { h with buckets := h.buckets.setIfInBounds bucket (deleteAt chain i), count := h.count - 1 }
-      if h.count == 0 then
-        let (s, h) := h.fastrand
-        pure { h with hash0 := s }
-      else pure h
+    let h ← if h.growing then growWork o h (bucketIdx hash h.B) else pure h
+    pure (deleteCore o h hash k)
 
 /-! ## mapclear -/
 
